@@ -716,4 +716,14 @@ theorem C12_inverse_total_backup_path {est : Nat → Nat} (hest : EstOK est) (n 
   obtain ⟨R, hR1, hR2, hR3⟩ := C12_inverse_total hest n scale p m g fuel hn hp hg2 hg3 hfuel
   exact ⟨g, R, hg1, hR1, hR2, hR3⟩
 
+
+/-- non-vacuity: `1/7` at 100 digits under HalfEven with the driver's fuel - the hypotheses of
+    `C12_inverse_total_main_path` are met (no premise about the guess is left) -/
+example : ∃ g R, invGuessMain ((7 : Nat).log2 + 1) 0 = some g ∧
+      invLoop estGuard ⟨7, 0⟩ 100 400 Dec.zero (invNext ⟨7, 0⟩ g) = some R ∧
+      implInverse estGuard 7 0 100 .HalfEven g 400 = R.withPrecisionRound 100 .HalfEven ∧
+      ∀ res, implInverse estGuard 7 0 100 .HalfEven g 400 = some res →
+        |res.value - 1 / (Dec.mk 7 0).value| < (10 : ℚ) ^ (-res.scale) :=
+  C12_inverse_total_main_path estGuard_ok 7 0 100 .HalfEven 400 (by decide) (by decide) (by decide) (by decide)
+
 end BigDec
